@@ -250,19 +250,34 @@ def register(E):
     if opt.get('x25_uf'):
         crcstep = z3.Function('crcstep', z3.BitVecSort(16), z3.BitVecSort(8), z3.BitVecSort(16))
         E.uf['crcstep'] = crcstep
+        _s = z3.Var(0, z3.BitVecSort(16))
+        _b = z3.Var(1, z3.BitVecSort(8))
+        _c = _s ^ z3.ZeroExt(8, _b)
+        for _i in range(8):
+            _c = z3.LShR(_c, 1) ^ (BV(0x8408, 16) & (0 - (_c & 1)))
+        E.uf_defs.append((crcstep, _c))
+
+        def crc_apply(E, st, b):
+            # concrete arguments: the function proved equal to crcstep by lemma C02/L1 (bitwise reference)
+            if type(st) is int and type(b) is int:
+                c = (st ^ b) & 0xFFFF
+                for _ in range(8):
+                    c = (c >> 1) ^ 0x8408 if c & 1 else c >> 1
+                return c
+            return crcstep(E.tobv(st, 16), E.tobv(b, 8))
 
         def x25_write(E, args):
             x, p = args
             cp = Ptr(x.obj, x.path + (0,))
             st = E.load(cp)
             for b in E.slice_list(p):
-                st = crcstep(E.tobv(st, 16), E.tobv(b, 8))
+                st = crc_apply(E, st, b)
             E.store(cp, st)
             return None
         I['(*github.com/bluenviron/gomavlib/v3/pkg/x25.X25).Write'] = x25_write
 
         def v_crcstep(E, args):
-            return crcstep(E.tobv(args[0], 16), E.tobv(args[1], 8))
+            return crc_apply(E, args[0], args[1])
         I['@verifCrcStep'] = v_crcstep
 
     # ---------------------------------------------------------------- sha256 as uninterpreted absorb chain
@@ -637,10 +652,40 @@ def register(E):
         return rt_iface(args[0].t)
     I['(reflect.Value).Type'] = r_type
 
+    def struct_field(E, tid, i):
+        u = E.types[tid].u
+        f = u.fields[i]
+        sf = E.types['reflect.StructField'].u
+        vals = []
+        for fd in sf.fields:
+            n = fd['name']
+            if n == 'Name':
+                vals.append(f['name'].encode())
+            elif n == 'PkgPath':
+                vals.append(b'' if f.get('exp') else b'pkg')
+            elif n == 'Type':
+                vals.append(rt_iface(f['type']))
+            elif n == 'Tag':
+                vals.append(f.get('tag', '').encode())
+            elif n == 'Offset':
+                vals.append(0)
+            elif n == 'Index':
+                vals.append(E.make_slice_from([i]))
+            elif n == 'Anonymous':
+                vals.append(bool(f.get('emb')))
+            else:
+                vals.append(E.zero(fd['type']))
+        return tuple(vals)
+
     def rtype_invoke(E, recv, method, args):
         t = recv.v.t
         ty = E.types[t]
         u = ty.u
+        if method == 'Field':
+            i = E.conc_int(args[0], 64, True)
+            if u.k != 'struct' or i < 0 or i >= len(u.fields or []):
+                raise GoPanic('reflect: Field index out of bounds')
+            return struct_field(E, t, i)
         if method == 'Elem':
             if u.k in ('ptr', 'slice', 'array', 'chan', 'map'):
                 return rt_iface(u.elem)
@@ -654,7 +699,9 @@ def register(E):
                 return ty.name.encode()
             return b''
         if method == 'NumField':
-            return len(u.fields)
+            if u.k != 'struct':
+                raise GoPanic('reflect: NumField of non-struct type')
+            return len(u.fields or [])
         if method == 'Len':
             return u.len
         if method == 'String':
@@ -662,6 +709,71 @@ def register(E):
         raise Unsupported('reflect.Type method ' + method)
     Engine.special_invoke[RTYPE] = rtype_invoke
     Engine.special_methods[RTYPE] = ('Elem', 'Kind', 'Name', 'NumField', 'Len', 'String', 'Field')
+
+    def tag_get(E, args):
+        tag, key = args
+        if type(tag) is not bytes or type(key) is not bytes:
+            raise Unsupported('StructTag.Get symbolic')
+        import re
+        # conventional format: key:"value" pairs separated by spaces
+        for m in re.finditer(rb'([^\s:"]+):"((?:[^"\\]|\\.)*)"', tag):
+            if m.group(1) == key:
+                return m.group(2)
+        return b''
+    I['(reflect.StructTag).Get'] = tag_get
+
+    # regexp on concrete strings (used by the message name conversion)
+    def re_compile(E, args):
+        return Iface('$regexp', args[0])
+    I['regexp.MustCompile'] = re_compile
+
+    def re_replace_all_string(E, args):
+        rx, src, repl = args
+        if type(src) is not bytes or type(repl) is not bytes:
+            raise Unsupported('regexp on symbolic string')
+        import re
+        pat = rx.v.decode()
+        r = re.sub(r'\$\{(\w+)\}', lambda m: '\\g<%s>' % m.group(1), repl.decode())
+        r = re.sub(r'\$(\d+)', lambda m: '\\g<%s>' % m.group(1), r)
+        return re.sub(pat, r, src.decode()).encode()
+    I['(*regexp.Regexp).ReplaceAllString'] = re_replace_all_string
+
+    def strings_tolower(E, args):
+        if type(args[0]) is bytes:
+            return args[0].lower()
+        raise Unsupported('ToLower symbolic')
+    I['strings.ToLower'] = strings_tolower
+
+    def strings_toupper(E, args):
+        if type(args[0]) is bytes:
+            return args[0].upper()
+        raise Unsupported('ToUpper symbolic')
+    I['strings.ToUpper'] = strings_toupper
+
+    def sort_slice(E, args):
+        """sort.Slice: in-place insertion sort driven by the real comparator closure (any correct sort gives the same
+        result when the comparator is a strict weak order that totally orders the elements — C03 lemma)"""
+        x, less = args
+        s = x.v
+        n = s.len
+        for i in range(1, n):
+            j = i
+            while j > 0:
+                c = E.call_value(less, [j, j - 1])
+                if type(c) is not bool:
+                    c = E.branch(c)
+                if not c:
+                    break
+                a = E.slice_get(s, j)
+                b = E.slice_get(s, j - 1)
+                a = freeze(a) if type(a) is list else a
+                b = freeze(b) if type(b) is list else b
+                E.slice_set(s, j, b)
+                E.slice_set(s, j - 1, a)
+                j -= 1
+        return None
+    I['sort.Slice'] = sort_slice
+    I['sort.SliceStable'] = sort_slice
 
     # ---------------------------------------------------------------- time (clock)
     def time_since_ns(E):
